@@ -150,11 +150,17 @@ class Runner:
             # but only if this is not in the subprocess
             yield (name_from_layer(EmptyLayer), EmptyLayer, EmptySuite())
 
-        layer_names = {layer_from_name(layer_name): layer_name
-                       for layer_name in self.tests_by_layer_name}
+        # A layer may be known under several names (a test names it by a
+        # dotted name that is an alias of the object other tests refer to):
+        # the tests registered under each of its names are run.
+        layer_names = {}
+        for layer_name in self.tests_by_layer_name:
+            layer_names.setdefault(
+                layer_from_name(layer_name), []).append(layer_name)
         for layer in order_by_bases(layer_names):
-            layer_name = layer_names[layer]
-            yield layer_name, layer, self.tests_by_layer_name[layer_name]
+            for layer_name in sorted(layer_names[layer]):
+                yield (layer_name, layer,
+                       self.tests_by_layer_name[layer_name])
 
     def register_tests(self, tests):
         """Registers tests."""
